@@ -1,21 +1,34 @@
 #!/usr/bin/env python3
-"""tools/seed_matrix.py [seed-id ...] — run each kept seed's property check on a scratch worktree with the seeded
-change applied; record detected/missed + the violation keys in seeded/MATRIX.json."""
-import json, os, re, subprocess, sys
+"""tools/seed_matrix.py [seed-id ...] — run ALL property rules (in process) on a scratch worktree with each kept seed
+applied; record in seeded/MATRIX.json whether the seed's own property check fires (detected), only another check
+fires (detected-by-other), or none (missed), with the keys."""
+import json, os, subprocess, sys
 V = "/verif"
 mp = V + "/seeded/MATRIX.json"
 ids = sys.argv[1:] or sorted(d for d in os.listdir(V + "/seeded") if os.path.isdir(V + "/seeded/" + d))
 for s in ids:
     prop = s.split("-")[0]
-    env = dict(os.environ, TRY_LINES="40")
-    r = subprocess.run([V + "/tools/try_patch.sh", V + "/seeded/%s/patch.diff" % s, prop], stdout=subprocess.PIPE,
-                       stderr=subprocess.STDOUT, text=True, env=env)
-    keys = re.findall(r"^\s*FAIL (\S+)", r.stdout, re.M)
-    ran = re.search(r"^\[%s\]" % prop, r.stdout, re.M) is not None
-    status = "detected" if keys else ("missed" if ran else "error")
+    out = "/tmp/seedmatrix-%s.json" % s
+    r = subprocess.run([V + "/tools/patch_matrix.py", "--props", "all", "--out", out, V + "/seeded/%s/patch.diff" % s],
+                       stdout=subprocess.PIPE, stderr=subprocess.STDOUT, text=True)
+    try:
+        res = list(json.load(open(out)).values())[0]
+    except Exception:
+        res = {"_error": r.stdout[-300:]}
     m = json.load(open(mp)) if os.path.exists(mp) else {}
-    m[s] = {"status": status, "keys": keys[:8], "check": prop}
-    if status == "error":
-        m[s]["output"] = r.stdout[-400:]
+    old = m.get(s, {})
+    if "_error" in res:
+        status, keys = "error", []
+    elif prop in res:
+        status, keys = "detected", res[prop]
+    elif res:
+        status, keys = "detected-by-other", []
+    else:
+        status, keys = "missed", []
+    ent = {"status": status, "check": prop, "keys": keys[:8], "all": {k: v[:4] for k, v in res.items()}}
+    if old.get("note"):
+        ent["note"] = old["note"]
+    m[s] = ent
     json.dump(m, open(mp, "w"), indent=1, sort_keys=True)
-    print(s, status, keys[:4], flush=True)
+    print(s, status, {k: v[:2] for k, v in res.items()}, flush=True)
+    os.remove(out) if os.path.exists(out) else None
